@@ -200,8 +200,15 @@ def h_isolate() -> bool:
             alone_nothing = True
         else:
             w1, s1 = _run(good[:1] + [(name, extra)] + good[1:], mode)
-            wj, sj = _run([(name, extra)], mode)
-            alone_nothing = _nothing(wj, mode)
+            if kind == "empty" or kind.startswith("trunc"):
+                # a proper prefix of a log (or nothing at all) is undecodable by construction, in every mode
+                alone_nothing = True
+            elif kind in ("corrupt:0-4", "corrupt:48-52") and bool(sym_any([sym_all([i == a + k, v != J[a + k]]) for k in range(2)])):
+                # a damaged 'PH' / 'UH' section id: the headers cannot be read
+                alone_nothing = True
+            else:
+                wj, sj = _run([(name, extra)], mode)
+                alone_nothing = _nothing(wj, mode)
     except Exception as e:
         return verdict(False, obs={"exception": repr(e)})
     conds = [s0 == 0, s1 == 0, _well_framed(w1, mode)]
